@@ -144,6 +144,12 @@ def _outdated(near, run, new=True):
 
 
 DIRECTED = [_outdated(near, run) for near in (False, True) for run in (False, True)] + [
+    # the edges of the manifest domain (exponent floats, YAML-ish strings and keys, control and
+    # non-BMP characters, a 1100 character key), fetched, refreshed and written by a prior life
+    [['SetMan', 'i1', 4], ['SetMan', 'i2', 5], ['Place', 'i1', 4, False], ['Place', 'i2', 4, False],
+     ['Boot'], ['Sync', {}]],
+    [['PriorFile', 'i1', 5, 4], ['PriorFile', 'i2', 4, 1], ['SetMan', 'i1', 4], ['SetMan', 'i2', 5],
+     ['Place', 'i1', 2, True], ['Place', 'i2', 4, True, True], ['Boot'], ['Sync', dict(run=True)]],
     _outdated(True, True, new=False),
     # placed, cached, agent dies, instance evicted and placed again within the same second, agent restarts
     [['SetMan', 'i1', 1], ['Place', 'i1', 1, False], ['Boot'], ['Sync', dict(run=True)], ['Crash'],
